@@ -404,17 +404,19 @@ class Ctx:
             "wall_s": round(time.time() - self.t0, 2),
             "violations": 0 if violation is None else max(1, len(unknown)),
         }
-        os.makedirs(os.path.join(VERIF, "evidence"), exist_ok=True)
-        tmp = os.path.join(VERIF, "evidence", ".%s.%d" % (self.prop, os.getpid()))
+        evdir = os.environ.get("VERIF_EVIDENCE_DIR") or os.path.join(VERIF, "evidence")
+        os.makedirs(evdir, exist_ok=True)
+        tmp = os.path.join(evdir, ".%s.%d" % (self.prop, os.getpid()))
         with open(tmp, "w") as f:
             json.dump(ev, f, indent=1, sort_keys=True, default=str)
             f.write("\n")
-        os.replace(tmp, os.path.join(VERIF, "evidence", self.prop + ".json"))
+        os.replace(tmp, os.path.join(evdir, self.prop + ".json"))
         if violation is None:
             self.log("OK obligations=%d/%d %s" % (ndis, nob, {k: v for k, v in cov.items() if isinstance(v, int)}))
             return 0
-        os.makedirs(os.path.join(VERIF, "replay"), exist_ok=True)
-        rp = os.path.join(VERIF, "replay", "%s-%s-%d.json" % (self.prop, self.tier, self.seed))
+        rpdir = os.environ.get("VERIF_REPLAY_DIR") or os.path.join(VERIF, "replay")
+        os.makedirs(rpdir, exist_ok=True)
+        rp = os.path.join(rpdir, "%s-%s-%d.json" % (self.prop, self.tier, self.seed))
         with open(rp, "w") as f:
             json.dump(violation, f, indent=1, default=str)
         tail = "" if violation["kind"] == "failing-input" else " no-failing-input-found"
